@@ -86,9 +86,20 @@ const (
 	c16Cat0     = "d7a3b0f5-7a7c-4b7c-9b1a-0e1f8c6a7d10"
 	c16Cat1     = "e7a3b0f5-7a7c-4b7c-9b1a-0e1f8c6a7d11"
 	c16Case0    = "f7a3b0f5-7a7c-4b7c-9b1a-0e1f8c6a7d12"
+	c16Node2    = "56d51f50-58de-49da-8d13-dadbf322685e"
+	c16Act3     = "4ed0a1c1-4b0e-4a6b-8a8a-6a2c9d1a5b15"
+	c16Act4     = "5ed0a1c1-4b0e-4a6b-8a8a-6a2c9d1a5b16"
+	c16Act5     = "6ed0a1c1-4b0e-4a6b-8a8a-6a2c9d1a5b17"
+	c16Act6     = "7ed0a1c1-4b0e-4a6b-8a8a-6a2c9d1a5b18"
+	c16Act7     = "8ed0a1c1-4b0e-4a6b-8a8a-6a2c9d1a5b19"
+	c16Exit3    = "67d8813f-1402-4ad2-9cc2-e9054a96525e"
+	c16Exit4    = "77d8813f-1402-4ad2-9cc2-e9054a96525f"
+	c16Cat2     = "a7a3b0f5-7a7c-4b7c-9b1a-0e1f8c6a7d13"
+	c16Cat3     = "b7a3b0f5-7a7c-4b7c-9b1a-0e1f8c6a7d14"
+	c16Case1    = "c7a3b0f5-7a7c-4b7c-9b1a-0e1f8c6a7d15"
 )
 
-var c16LongResult = "Result " + strings.Repeat("Name 123 ", 8)          // 79 ASCII characters
+var c16LongResult = "Result " + strings.Repeat("Name 123 ", 8)           // 79 ASCII characters
 var c16LongCategory = "Catégorie très très longue et encore plus longue" // 48 characters, multi-byte
 
 func versionString(v int) string { return fmt.Sprintf("13.%d.0", v) }
@@ -139,9 +150,29 @@ func renderDef(d adef) []byte {
 		{"uuid": c16Act1, "type": "add_contact_groups", "groups": []M{{"uuid": "b7cf0d83-f1c9-411c-96fd-c511a4cfa86d", "name": "Testers"}}},
 		{"uuid": c16Act2, "type": "set_run_result", "name": rname, "value": whText, "category": cname}},
 		"exits": []M{{"uuid": c16Exit2, "destination_uuid": c16Node0}}}
+	nodes := []M{node0, node1}
+	if d.Wh != "none" && d.Wh != "" {
+		// the same references in every other place a template can live: webhook url / headers / body, e-mail, contact
+		// modifiers, quick replies, attachments, a router's operand and case arguments, and their translations
+		node2 := M{"uuid": c16Node2, "actions": []M{
+			{"uuid": c16Act3, "type": "call_webhook", "method": "POST", "url": "http://example.com/?q=" + whVar, "headers": M{"Authorization": "Bearer " + whVar, "X-Plain": "abc"},
+				"body": "{\"v\": \"" + whVar + "\"}", "result_name": "Hook"},
+			{"uuid": c16Act4, "type": "send_email", "addresses": []string{"a@example.com"}, "subject": "S " + whVar, "body": "B " + whText},
+			{"uuid": c16Act5, "type": "set_contact_field", "field": M{"key": "age", "name": "Age"}, "value": whVar},
+			{"uuid": c16Act6, "type": "set_contact_name", "name": "N " + whVar},
+			{"uuid": c16Act7, "type": "send_msg", "text": "T " + whVar, "quick_replies": []string{"Q " + whVar}, "attachments": []string{"image/jpeg:http://example.com/" + whVar + ".jpg"}}},
+			"router": M{"type": "switch", "operand": whVar, "default_category_uuid": c16Cat3,
+				"cases":      []M{{"uuid": c16Case1, "type": "has_any_word", "arguments": []string{"x " + whVar}, "category_uuid": c16Cat2}},
+				"categories": []M{{"uuid": c16Cat2, "name": "Has", "exit_uuid": c16Exit3}, {"uuid": c16Cat3, "name": "Other", "exit_uuid": c16Exit4}}},
+			"exits": []M{{"uuid": c16Exit3}, {"uuid": c16Exit4, "destination_uuid": c16Node0}}}
+		spa[c16Act7] = M{"text": []string{"ES T " + whVar}, "quick_replies": []string{"ES Q " + whVar}}
+		spa[c16Case1] = M{"arguments": []string{"es " + whVar}}
+		spa[c16Act4] = M{"subject": []string{"ES S " + whVar}, "body": []string{"ES B " + whVar}}
+		nodes = append(nodes, node2)
+	}
 	lang := d.Lang
 	f := M{"uuid": c16FlowUUID, "name": "Migrate me", "spec_version": versionString(d.Ver), "language": lang, "type": "messaging",
-		"expire_after_minutes": 30, "nodes": []M{node0, node1}, "localization": M{"spa": spa},
+		"expire_after_minutes": 30, "nodes": nodes, "localization": M{"spa": spa},
 		"_ui": M{"nodes": M{c16Node0: M{"position": M{"left": 1, "top": 2}}}}}
 	return mustJSON(f)
 }
@@ -323,15 +354,79 @@ func checkMigration(src []byte, dver, target, mid int, legacy bool, line *C16Lin
 	}
 	// expression rewrites preserve what templates evaluate to (13.3: @webhook -> @webhook.json)
 	if !legacy && dver < 3 && (target < 0 || target >= 3) {
-		oldT, newT := sendMsgText(src), sendMsgText(m)
-		if strings.Contains(oldT, "webhook") {
-			oc, nc := whContexts()
-			env := envs.NewBuilder().Build()
-			a, _, _ := excellent.NewEvaluator().Template(env, oc, oldT, nil)
-			b, _, _ := excellent.NewEvaluator().Template(env, nc, newT, nil)
-			line.TemplatesSame = a == b
-			if a != b {
-				line.Detail = fmt.Sprintf("template %q -> %q evaluates %q -> %q", oldT, newT, a, b)
+		// every string of the definition that mentions the webhook, wherever it lives: what the old ones evaluate to
+		// under the old context is what the new ones evaluate to under the new context (as multisets: templating
+		// migrations move strings around)
+		oc, nc := whContexts()
+		env := envs.NewBuilder().Build()
+		isTpl := map[string]bool{}
+		for _, t := range flow.ExtractTemplates() {
+			isTpl[t] = true
+		}
+		strs := func(data []byte) map[string]bool {
+			var doc any
+			json.Unmarshal(data, &doc)
+			out := map[string]bool{}
+			var walk func(v any)
+			walk = func(v any) {
+				switch t := v.(type) {
+				case map[string]any:
+					for _, e := range t {
+						walk(e)
+					}
+				case []any:
+					for _, e := range t {
+						walk(e)
+					}
+				case string:
+					out[t] = true
+				}
+			}
+			walk(doc)
+			return out
+		}
+		inSrc, inNew := strs(src), strs(m)
+		// a string that the migration left alone and that the loaded flow does not list as a template is not one (names)
+		notTemplate := func(t string) bool { return inSrc[t] && inNew[t] && !isTpl[t] }
+		evalAll := func(data []byte, ctx *types.XObject) []string {
+			var doc any
+			json.Unmarshal(data, &doc)
+			var out []string
+			var walk func(v any)
+			walk = func(v any) {
+				switch t := v.(type) {
+				case map[string]any:
+					for k, e := range t {
+						if k != "_ui" {
+							walk(e)
+						}
+					}
+				case []any:
+					for _, e := range t {
+						walk(e)
+					}
+				case string:
+					if strings.Contains(t, "webhook") && strings.Contains(t, "@") && !notTemplate(t) {
+						r, _, _ := excellent.NewEvaluator().Template(env, ctx, t, nil)
+						out = append(out, r)
+					}
+				}
+			}
+			walk(doc)
+			sort.Strings(out)
+			return out
+		}
+		a, b := evalAll(src, oc), evalAll(m, nc)
+		if !reflect.DeepEqual(a, b) {
+			line.TemplatesSame = false
+			for k := 0; k < len(a) && k < len(b); k++ {
+				if a[k] != b[k] {
+					line.Detail = fmt.Sprintf("a template that evaluated to %q before the migration evaluates to %q after it", a[k], b[k])
+					break
+				}
+			}
+			if line.Detail == "" {
+				line.Detail = fmt.Sprintf("%d templates mention the webhook before the migration, %d after", len(a), len(b))
 			}
 		}
 	}
